@@ -77,7 +77,18 @@ def _gen(g):
                 if k in ("notify", "notify_all", "notc") and g.chance(70):
                     script.append(["rel", g.int(0, 1)])
         actors.append(script)
-    return {"kind": kind, "config": g.choice(["S", "S", "E", "U"]), "actors": actors}
+    if kind == "cond" and g.chance(20):
+        # three waiters queued in order; the middle one is abandoned (cancelled unnotified), then the first is
+        # notified and cancelled natively in the same cycle so that it has to pass the notification on
+        n = 4
+        d = g.int(0, 2)
+        actors = [[["acq", 0], ["wait", 0], ["rel", 0]], [["acq", 1], ["wait", 0], ["rel", 0]],
+                  [["acq", 2], ["wait", 0], ["rel", 0]],
+                  [["yield_", 8], ["cancel", d, 1, g.chance(30)], ["acq", g.int(0, 1)],
+                   ["notc", 0, 1, 0, 0, True], ["rel", 0]] + ([["acq", 3], ["notify", 0, 2], ["rel", 0]] if g.bool() else [])]
+        actors[3][0] = ["cancel", 8, 3, False]      # harmless first step that just takes 8 cycles
+    return {"kind": kind, "config": g.choice(["S", "S", "E", "U"]), "actors": actors,
+            "nest": g.choice([0, 0, 1, 2]), "adapter": g.chance(20)}
 
 
 _strategy = composite(_gen)
@@ -88,8 +99,11 @@ def strategy(tier):
 
 
 def run_event(case, out, stats):
+    prebuilt = Event() if case.get("adapter") else None     # adapter created outside the event loop
+
     async def body(sim):
-        ev = Event()
+        sim.nest = case.get("nest", 0)
+        ev = prebuilt if prebuilt is not None else Event()
         set_cycle = [None]
         waiting = {}     # aid -> call cycle
 
@@ -161,8 +175,11 @@ def run_event(case, out, stats):
 
 
 def run_cond(case, out, stats):
+    prebuilt = Condition() if case.get("adapter") else None
+
     async def body(sim):
-        cond = Condition()
+        sim.nest = case.get("nest", 0)
+        cond = prebuilt if prebuilt is not None else Condition()
         holder = [None]
         queue = []           # FIFO of aids in wait(), unmarked, cancellation not requested
         joined = {}          # aid -> cycle at which it joined the queue
@@ -192,7 +209,7 @@ def run_cond(case, out, stats):
                     return      # already resumed into the (shield-protected) re-acquire: native cancel out of domain
                 if target in inwait and target not in queue and target not in marked:
                     return      # a zombie: one cancellation is already on its way
-                if any(joined.get(target, -99) <= c + 2 for c in credits):
+                if marked.get(target) != sim.now() and any(joined.get(target, -99) <= c + 2 for c in credits):
                     return      # may secretly hold a passed-on notification (already re-acquiring): out of domain
                 if sim.native_cancel(target):
                     note_cancel(target)
